@@ -12,6 +12,7 @@ import (
 	"github.com/pgavlin/dawn/internal/verif/vlib"
 	"github.com/pgavlin/dawn/internal/verif/vsched"
 	"github.com/pgavlin/dawn/label"
+	starlark_os "github.com/pgavlin/dawn/lib/os"
 	"go.starlark.net/starlark"
 )
 
@@ -413,5 +414,51 @@ func (x *searcher) doubleRunLines(r *vlib.Run) {
 		if afterFailed {
 			x.r.Violation("C18:lines:output-after-completion", "a line of a target's output was delivered after its Succeeded/Failed event", map[string]any{"files": files, "lines_per_build": runs})
 		}
+	}
+}
+
+// ---- C18 (f): output of a real child process that writes to both of its streams ----
+//
+// A body runs os.exec on a shell loop that writes N lines alternately to standard output and
+// standard error. Both streams of a target are one sink: the lines must arrive whole, once,
+// and in the order they were written (the child writes them one after the other).
+func (x *searcher) execLines(r *vlib.Run) {
+	const n = 1500
+	files := map[string]string{
+		"dawn.toml":  "name = \"p\"\n",
+		"BUILD.dawn": fmt.Sprintf("def _t(t):\n    os.exec([\"sh\", \"-c\", \"i=0; while [ $i -lt %d ]; do echo out-$i; echo err-$i 1>&2; i=$((i+1)); done\"], try_=True)\ntarget(name=\"t\", function=_t)\n", n),
+	}
+	var lines []string
+	var runErr error
+	x.withRoot(func(root string) {
+		writeTree(root, files)
+		rec := newRecorder()
+		proj, err := dawn.Load(root, &dawn.LoadOptions{Events: rec, Builtins: starlark.StringDict{"os": starlark_os.Module}})
+		if err != nil {
+			vlib.Fatalf("exec-lines project does not load: %v", err)
+		}
+		l, _ := label.Parse("//:t")
+		runErr = proj.Run(l, nil)
+		for _, e := range rec.ev {
+			if e.Kind == "Print" && e.Label == "//:t" {
+				lines = append(lines, e.Line)
+			}
+		}
+	})
+	r.Add("exec_lines", int64(len(lines)))
+	if runErr != nil {
+		vlib.Fatalf("exec-lines project does not build (is sh available?): %v", runErr)
+	}
+	bad := ""
+	if len(lines) != 2*n {
+		bad = fmt.Sprintf("%d lines delivered, %d written", len(lines), 2*n)
+	}
+	for i := 0; bad == "" && i < n; i++ {
+		if lines[2*i] != fmt.Sprintf("out-%d", i) || lines[2*i+1] != fmt.Sprintf("err-%d", i) {
+			bad = fmt.Sprintf("lines %d and %d are %q and %q, written were %q and %q", 2*i, 2*i+1, lines[2*i], lines[2*i+1], fmt.Sprintf("out-%d", i), fmt.Sprintf("err-%d", i))
+		}
+	}
+	if bad != "" {
+		x.r.Violation("C18:lines:child-process-output", "output of a child process writing alternately to stdout and stderr: "+bad, map[string]any{"files": files, "first_lines": lines[:min(len(lines), 12)]})
 	}
 }
